@@ -407,7 +407,15 @@ def minimise_mismatch(ev, tu, pending, nid, max_rounds=10, cand_cap=40):
         if not cands:
             break
         cands.sort(key=lambda c: (dg.decl_size(c), c["id"]))
-        st, info = ev.evaluate(dict(tu, decls=tu.get("support", []) + cands), max_parser_reruns=40)
+        st, info = ev.evaluate(dict(tu, decls=tu.get("support", []) + cands), max_parser_reruns=60)
+        if info.get("tool_problem"):
+            # too many candidates of this round are rejected by the parser for one TU: judge every declaration's
+            # candidates in a TU of their own, so that none stays unreduced for lack of a verdict
+            st = {}
+            for k in sorted(active):
+                sub = [c for c in cands if owner[c["id"]] == k]
+                st1, _i1 = ev.evaluate(dict(tu, decls=tu.get("support", []) + sub), max_parser_reruns=60)
+                st.update({c["id"]: st1.get(c["id"]) for c in sub})
         moved = set()
         for c in cands:
             k = owner[c["id"]]
@@ -421,7 +429,14 @@ def minimise_mismatch(ev, tu, pending, nid, max_rounds=10, cand_cap=40):
 
 def minimise(ev, tu, pending, rejected_cap=6):
     nid = [100000]
-    out, last = minimise_mismatch(ev, tu, {k: v[0] for k, v in pending.items() if v[1] == "mismatch"}, nid)
+    mm = {k: v[0] for k, v in pending.items() if v[1] == "mismatch"}
+    out, last = minimise_mismatch(ev, tu, mm, nid)
+    # a declaration the batch left untouched gets a reduction of its own (a crowded batch TU can hide its candidates)
+    for k in sorted(mm):
+        if out[k] == mm[k] and len(mm) > 1:
+            o1, l1 = minimise_mismatch(ev, tu, {k: mm[k]}, nid)
+            out[k] = o1[k]
+            last.update(l1)
     n = 0
     for k, v in sorted(pending.items(), key=lambda kv: dg.decl_size(kv[1][0])):
         if v[1] == "rejected-valid" and n < rejected_cap:
@@ -453,7 +468,8 @@ def cause_of(cat, sig, printed="", text=""):
     if cat == "rejected-valid" and printed.startswith("died:"):
         return "tool-aborts-on-valid-input," + re.sub(r"[^\w:(),@=<>!&|.*+-]", "_", printed[5:])[:120]
     if cat == "rejected-valid":
-        if re.search(r"alias=(const |volatile |const volatile )", sig):
+        if re.search(r"alias=(const |volatile |const volatile )", sig) or \
+                re.match(r"using \w+ = (const\s+)?volatile\b", text):
             return "alias-declaration-starting-with-cv-qualifier"
         if "elab-enum" in sig:
             return "elaborated-enum-specifier"
@@ -494,7 +510,7 @@ def cause_of(cat, sig, printed="", text=""):
     if re.search(r"fn\((ptr|ref|rref|memptr)\((array|fn)\(.*\) const", sig):
         # `int (*(G::*p)() const)[2]` is printed `int (*(G::*p)(void))[2] const`
         return "const-member-function-pointer-returning-pointer-to-array-or-function-misplaces-const"
-    if re.search(r"const (ptr|memptr)\(array\(", sig):
+    if re.search(r"const (ptr|memptr)\(((ptr|memptr)\()*array\(", sig):
         # `int (*const p)[4]` is printed `int (*p)[4] const`: the qualifier of the pointer lands after the bound
         return "cv-qualified-pointer-to-array-misprinted"
     if re.search(r"(ptr|ref|rref)\(array\(", sig):
@@ -515,6 +531,15 @@ def cause_of(cat, sig, printed="", text=""):
         return "const-return-type-of-function-pointer-dropped"
     if m:
         return "name-resolved-to-wrong-entity,via=" + m.group(1)
+    if len(vias) == 1:
+        # the 1-minimal witness still spells a type through name lookup although the candidate with a plainly
+        # qualified class in its place (`G`) was tried and passed: the lookup of that name is what fails
+        via = sorted(vias)[0]
+        if "elab-enum" in sig:
+            return "elaborated-enum-specifier-looked-up-outside-class-scope,via=" + via
+        if "((" in printed:
+            return "parameter-with-unrecognised-type-name-taken-as-expression,via=" + via
+        return "name-resolved-to-wrong-entity,via=" + via
     return None
 
 
